@@ -46,6 +46,20 @@ def all_finding_obligations():
     return out
 
 
+def reproduces_only_a_recorded_finding(qn, path, finding_lines):
+    """a bounded search on a function that has a recorded finding reproduces that finding (it is a defect of the real
+    code); unless the replayer says it left the finding's scenario out, such a reproduction is not a new violation"""
+    base = qn.split('@')[0]
+    known_f = [f for f in finding_lines if f['obligation'].split('/')[0] in (qn, base) or
+               f['obligation'].split('/')[0].split('@')[0] == base and '@' not in qn]
+    if not known_f:
+        return False
+    try:
+        return 'known findings skipped' not in json.load(open(path)).get('replay_output', '')
+    except Exception:
+        return True
+
+
 def load_findings(prop):
     """known_findings.txt ->  {'qualname/obligation': [(id, witness)]}, list of lines"""
     out, lines, fixed = {}, [], []
@@ -442,8 +456,12 @@ def main(argv):
         qn = r['qualname']
         if qn in by_func or qn in searched or (qn + '/' + o['name']) not in base_names:
             continue
+        if o['name'].startswith('vacuity.'):
+            continue            # a guard that could not be evaluated is undecided, never a reason to search for inputs
         searched.add(qn)
         path, reproduced = replay(prop, mod, r, o, replay_dir, search=True)
+        if reproduced and reproduces_only_a_recorded_finding(qn, path, finding_lines):
+            continue
         if reproduced:
             viol_lines.append('VIOLATION property=%s replay=%s obligation=%s/%s' % (prop, path, qn, o['name']))
     # a function that can no longer be analysed after a code change (a new loop without an invariant, a construct
@@ -457,7 +475,7 @@ def main(argv):
                 ob = {'name': 'unanalysable.' + re.sub(r'[^A-Za-z0-9]+', '_', r['error'][1])[:60], 'path': '',
                       'backend': 'none', 'model': None, 'detail': r['error'][1]}
                 path, reproduced = replay(prop, mod, r, ob, replay_dir, search=True)
-                if reproduced:
+                if reproduced and not reproduces_only_a_recorded_finding(r['qualname'], path, finding_lines):
                     viol_lines.append('VIOLATION property=%s replay=%s obligation=%s/%s' % (prop, path, r['qualname'], ob['name']))
     for qn, lst in by_func.items():
         tops = [(r, o) for r, o in lst if not is_aux(o['name'])]
@@ -475,6 +493,8 @@ def main(argv):
         r, o = lst[0]
         path, reproduced = replay(prop, mod, r, o, replay_dir, search=True)
         names = sorted(set(x[1]['name'] for x in lst))
+        if reproduced and reproduces_only_a_recorded_finding(qn, path, finding_lines):
+            reproduced = False
         if reproduced:
             viol_lines.append('VIOLATION property=%s replay=%s obligation=%s/%s' % (prop, path, qn, o['name']))
         else:
